@@ -447,6 +447,7 @@ func ufInt(name string, args ...any) int { return 0 }
 func callStr(fn string, s string) string { return "" }
 func renderedRange(expr string) string { return "" }
 func inlined() bool { return false }
+func visitedKey(m any, k string) bool { return false }
 func sameArray(a, b any) bool { return false }
 func within(fn string) bool { return false }
 func foldStr(n int, f func(i int) string) string { return "" }
@@ -678,7 +679,7 @@ var ghostNames = map[string]bool{
 	"gvcModLoc": true, "gvcModGhost": true, "gvcModFlag": true, "gvcModMap": true, "gvcModGlob": true, "gvcModElems": true,
 	"fsContent": true, "fsExists": true, "fsReadable": true, "fsIsDir": true, "fsMode": true, "fsSize": true, "fsMTime": true,
 	"fsLink": true, "fsIsLink": true, "ufStr": true, "ufInt": true, "ufBool": true,
-	"errIs": true, "errAsSigningFailure": true, "errMsg": true, "mapHas": true, "bit": true, "isNilFunc": true, "dynType": true, "mergoOverride": true, "deepEq": true, "forallKeys": true, "forallStr": true, "globErr": true, "readerContent": true, "callStr": true, "callStrs": true, "renderedRange": true, "inlined": true, "sameArray": true, "within": true, "foldStr": true, "foldInt": true, "lastBytes": true, "lastStr": true, "lastOK": true, "nthBytes": true, "lastTime": true, "eachStr": true,
+	"errIs": true, "errAsSigningFailure": true, "errMsg": true, "mapHas": true, "bit": true, "isNilFunc": true, "dynType": true, "mergoOverride": true, "deepEq": true, "forallKeys": true, "forallStr": true, "globErr": true, "readerContent": true, "callStr": true, "callStrs": true, "renderedRange": true, "inlined": true, "visitedKey": true, "sameArray": true, "within": true, "foldStr": true, "foldInt": true, "lastBytes": true, "lastStr": true, "lastOK": true, "nthBytes": true, "lastTime": true, "eachStr": true,
 }
 
 func ghostBuiltin(fn *ssa.Function) string {
@@ -773,6 +774,12 @@ func (e *Engine) ghostCall(c *CallCtx, g string, fn *ssa.Function) *Term {
 			return Forall([]*Term{j}, Implies(rng, body))
 		}
 		return Not(Forall([]*Term{j}, Not(And(rng, body))))
+	case "visitedKey":
+		// the range loop over map m has already handed out key k
+		m := e.payloadTerm(c.args[0])
+		vs := ArrayOf(StringS, BoolS)
+		e.declComp("X:visitedStr", ArrayOf(IntS, vs))
+		return Select(Select(e.comp(st, "X:visitedStr"), m), c.args[1])
 	case "sameArray":
 		// two slices over the same backing array, starting at the same element
 		a, b := e.payloadTerm(c.args[0]), e.payloadTerm(c.args[1])
